@@ -122,3 +122,103 @@ diff = Contract(
     loops={0: Loop(inv=lambda L: [(L.self.top_usable_row - L.old.self.top_usable_row) + L.cursor_dy ==
                                   L.self.ghost_moved - L.old.self.ghost_moved,
                                   L.self.ghost_queries >= L.old.self.ghost_queries + If(L.k > 0, 1, 0)])})
+
+
+# ---------------------------------------------------------------------------------------------
+# CursorAwareWindow.render_to_terminal: scroll accounting (integers only)                   C07
+#   Everything that is not integer bookkeeping (row cache dicts, lines, escape strings) is ABSTRACTED: opaque values,
+#   comparisons on them are unknown booleans (both outcomes explored).  Proved for every array length n, terminal
+#   height H >= 1 and top usable row T0 >= 0:
+#     scroll_down() is called exactly  max(0, n - max(0, H - T0))  times,
+#     top_usable_row' = max(0, T0 - scrolls),   return value = scrolls - (T0 - top_usable_row'),
+#     _last_cursor_row' = max(0, cursor_pos[0] - return + top_usable_row').
+#   What the terminal then shows is decided by the bounded suite of C07.
+# ---------------------------------------------------------------------------------------------
+from pyvc.contract import TypeSpec
+from pyvc.values import AbsSeq, AbsV, OpaqueV
+from pyvc.spec import Max, Min
+import contracts.osmodel as _OSM
+
+
+class AbsSeqT(TypeSpec):
+    def fresh(self, name, st):
+        n = fresh(name + "_len", T.I)
+        st.assume(n >= 0)
+        return AbsSeq(n)
+
+
+class AbsDictT(TypeSpec):
+    def fresh(self, name, st):
+        return st.alloc(AbsV(fresh(name, T.I), kind="dict"))
+
+
+class IntPairT(TypeSpec):
+    def fresh(self, name, st):
+        return (Sym("int", fresh(name + "_row", T.I)), Sym("int", fresh(name + "_col", T.I)))
+
+
+for _cap in ("move", "move_x", "move_down", "clear_eos", "clear_eol", "clear_bol"):
+    if ("ext:BlessedTerminal." + _cap) not in __import__("pyvc.contract", fromlist=["REGISTRY"]).REGISTRY:
+        Contract("ext:BlessedTerminal." + _cap, "C07", ["self", "*args"], shapes=[], result=lambda a, st: OpaqueV("capability text"))
+
+
+
+def _scroll_effect(a, st, res):
+    st.ghost["scrolls"] = st.ghost.get("scrolls", z3.IntVal(0)) + 1
+
+
+scroll_down = Contract(M + "BaseWindow.scroll_down", "C07", ["self"], kind="method", shapes=[],
+                       doc="ASSUMED (decided by the bounded suite): scrolls the screen by exactly one line")
+scroll_down.effect = _scroll_effect
+scroll_down.assumed = True
+xform = Contract(M + "BaseWindow.fmtstr_to_stdout_xform", "C07", ["self"], kind="method", shapes=[],
+                 result=lambda a, st: OpaqueV("for_stdout"), doc="ASSUMED: returns a function from a line to its terminal string")
+xform.assumed = True
+
+
+def _render_obj():
+    return ObjT("CursorAwareWindow", dict(
+        hide_cursor=BoolT(), top_usable_row=_I(0), _last_rendered_height=_I(), _last_rendered_width=_I(), _last_lines_by_row=AbsDictT(),
+        _last_cursor_row=_I(), _last_cursor_column=_I(),
+        t=ObjT("BlessedTerminal", dict(height=_I(1), width=_I(1), hide_cursor="\x1b[?25l", normal_cursor="\x1b[?12l\x1b[?25h",
+                                      clear_eol="\x1b[K", clear_bol="\x1b[1K"))))
+
+
+def _render_ensures(a, r):
+    o, f = a.self, a.final.self
+    st = a.final_state
+    n, H, T0 = a.array.n, o.t.height, o.top_usable_row
+    scrolls = st.ghost.get("scrolls", z3.IntVal(0))
+    want_scrolls = Max(0, n - Max(0, H - T0))
+    T1 = Max(0, T0 - want_scrolls)
+    ret = want_scrolls - (T0 - T1)
+    return [("post.scrolls_exactly_what_does_not_fit", scrolls == want_scrolls),
+            ("post.top_usable_row", f.top_usable_row == T1),
+            ("post.returns_rows_pushed_off_the_top", r == ret),
+            ("post.cursor_row", f._last_cursor_row == Max(0, a.cursor_pos[0] - ret + T1)),
+            ("post.cursor_column", f._last_cursor_column == a.cursor_pos[1]),
+            ("post.size_remembered", And(f._last_rendered_height == H, f._last_rendered_width == o.t.width))]
+
+
+def _render_loop2(L):
+    o = L.old.self
+    k, T0 = L.k, o.top_usable_row
+    sc = L._st.ghost.get("scrolls", z3.IntVal(0))
+    return [sc == k, L.self.top_usable_row == Max(0, T0 - k), L.offscreen_scrolls == Max(0, k - T0),
+            L.height == o.t.height, L.width == o.t.width]
+
+
+def _render_loop01(L):
+    o = L.old.self
+    sc = L._st.ghost.get("scrolls", z3.IntVal(0))
+    return [sc == 0, L.self.top_usable_row == o.top_usable_row, L.height == o.t.height, L.width == o.t.width]
+
+
+caw_render = Contract(
+    M + "CursorAwareWindow.render_to_terminal", "C07", ["self", "array", "cursor_pos"], kind="method",
+    shapes=[Shape("any", dict(self=_render_obj(), array=AbsSeqT(), cursor_pos=IntPairT()))],
+    ensures=_render_ensures,
+    loops={0: Loop(inv=_render_loop01), 1: Loop(inv=_render_loop01), 2: Loop(inv=_render_loop2)})
+caw_render.abstract = True
+caw_render.inline_methods = ("on_terminal_size_change",)
+caw_render.setup = lambda st, values: (_OSM.init_os(st), st.ghost.__setitem__("scrolls", z3.IntVal(0)))
